@@ -301,6 +301,14 @@ func DebugLincon(pkg, name string) int {
 	lincon.Reset()
 	a := lincon.New(p.SSA, core.InModule)
 	a.SetTrace(os.Getenv("T") != "")
+	if os.Getenv("E5") != "" {
+		es := errshape.New(core.InModule)
+		es.Eval(f, nil)
+		a.NonNilResult = func(call *ssa.Call) bool {
+			sh, ok := es.CallShapes[call]
+			return ok && len(sh) > 0 && !sh.HasNil() && !sh.HasUnknown()
+		}
+	}
 	a.Stats = map[string]int{}
 	done := make(chan bool)
 	if pf := os.Getenv("LIN_PROF"); pf != "" {
